@@ -43,6 +43,33 @@ func (f *vfLStream[T]) SendMsg(m any) error {
 	return nil
 }
 
+func (f *vfLStream[T]) count() int {
+	f.mu.Lock()
+	defer f.mu.Unlock()
+	return len(f.msgs)
+}
+
+// a listing with an until identifier never returns by itself (the handler keeps the stream open after the
+// backlog): the driver ends it once nothing more has arrived for `quiet` - or after `max`
+var vfListQuiet = 5 * time.Second
+
+func vfListWatch[T any](fs *vfLStream[T], cancel context.CancelFunc, quiet time.Duration, done <-chan struct{}) {
+	last, since := -1, time.Now()
+	for {
+		select {
+		case <-done:
+			return
+		case <-time.After(25 * time.Millisecond):
+		}
+		if n := fs.count(); n != last {
+			last, since = n, time.Now()
+		} else if time.Since(since) >= quiet {
+			cancel()
+			return
+		}
+	}
+}
+
 type vfListReq struct {
 	since, until       []byte
 	sinceNow, untilNow bool
@@ -102,6 +129,9 @@ func vfRPCListRun(t testing.TB, sc vfScript) []map[string]any {
 		c, cancel := context.WithTimeout(ctx, 5*time.Second)
 		defer cancel()
 		fs := &vfLStream[protocoltypes.GroupMetadataEvent]{ctx: c}
+		done := make(chan struct{})
+		defer close(done)
+		go vfListWatch(fs, cancel, vfListQuiet, done)
 		err = s.GroupMetadataList(&protocoltypes.GroupMetadataList_Request{GroupPk: cr.GroupPk, SinceId: r.since, UntilId: r.until,
 			SinceNow: r.sinceNow, UntilNow: r.untilNow, ReverseOrder: r.rev}, &grpc.GenericServerStream[protocoltypes.GroupMetadataList_Request, protocoltypes.GroupMetadataEvent]{ServerStream: fs})
 		ids = [][]byte{}
@@ -120,6 +150,9 @@ func vfRPCListRun(t testing.TB, sc vfScript) []map[string]any {
 		c, cancel := context.WithTimeout(ctx, 5*time.Second)
 		defer cancel()
 		fs := &vfLStream[protocoltypes.GroupMessageEvent]{ctx: c}
+		done := make(chan struct{})
+		defer close(done)
+		go vfListWatch(fs, cancel, vfListQuiet, done)
 		err = s.GroupMessageList(&protocoltypes.GroupMessageList_Request{GroupPk: cr.GroupPk, SinceId: r.since, UntilId: r.until,
 			SinceNow: r.sinceNow, UntilNow: r.untilNow, ReverseOrder: r.rev}, &grpc.GenericServerStream[protocoltypes.GroupMessageList_Request, protocoltypes.GroupMessageEvent]{ServerStream: fs})
 		ids = [][]byte{}
@@ -196,13 +229,46 @@ func vfRPCListRun(t testing.TB, sc vfScript) []map[string]any {
 						r.untilNow = true
 					}
 					panicked = false
+					t0 := time.Now()
+					vfListQuiet = 200 * time.Millisecond
 					ids, err := call(r)
 					got := []int{}
 					for _, id := range ids {
 						got = append(got, nameOf(id))
 					}
+					// the quick attempt may have been cut short on a loaded machine: if it is not the plain range,
+					// ask again patiently and record that answer (the verdict is the monitor's, on the recorded one)
+					lo, hi := since, until
+					if lo == 0 {
+						lo = 1
+					}
+					if hi == 0 {
+						hi = n
+					}
+					plain := err == nil && lo <= hi && hi <= n && len(got) == hi-lo+1
+					if plain {
+						for i, x := range got {
+							want := lo + i
+							if rev {
+								want = hi - i
+							}
+							if x != want {
+								plain = false
+							}
+						}
+					}
+					if !plain && !panicked {
+						vfListQuiet = 5 * time.Second
+						ids, err = call(r)
+						got = []int{}
+						for _, id := range ids {
+							got = append(got, nameOf(id))
+						}
+					}
+					vfListQuiet = 5 * time.Second
+					ms := int(time.Since(t0) / time.Millisecond)
 					out = append(out, map[string]any{"ev": "rpclist", "kind": kind, "since": since, "until": until, "rev": rev,
-						"ok": err == nil, "out": got, "has": has, "full": fullNames, "storeagree": agree, "panic": panicked})
+						"ok": err == nil, "out": got, "has": has, "full": fullNames, "storeagree": agree, "panic": panicked, "ms": ms})
 				}
 			}
 		}
